@@ -8,9 +8,9 @@ import (
 
 const scheduled = true
 
-func rtGo(f func())     { vsync.Go(f) }
-func rtYield()          { vsync.Yield() }
-func rtSetFine(on bool) { vsync.SetFine(on) }
+func rtGo(f func())      { vsync.Go(f) }
+func rtYield()           { vsync.Yield() }
+func rtSetFine(on bool)  { vsync.SetFine(on) }
 func rtSetDelay(on bool) { vsync.DelayBounded = on }
 
 // harness threads: spawn without a scheduling point, join without counters
